@@ -1,8 +1,24 @@
 import OW.Kernels.Basic
+import OW.Kernels.C16.Conversions
+import OW.Kernels.C16.Partitions
+import OW.Kernels.C16.LoadGen
+import OW.Kernels.C16.BankErosion
+import OW.Kernels.C16.UsleFine
+import OW.Kernels.C16.SednetGully
 /- Kernel models of group Conversion (one owner; see /verif/AGENTS.md). Add imports above and entries to `models`. -/
 namespace OW.Kernels.Groups.Conversion
 open OW
 
-def models {α} [Num α] : List (KModel α) := [ ]
+def models {α} [Num α] : List (KModel α) := [
+  -- models/conversion
+  Kernels.Scaling.model, Kernels.Scaling.deliveryRatio, Kernels.DepthToRate.model,
+  Kernels.FixedPartition.model, Kernels.VariablePartition.model, Kernels.RatingCurvePartition.model,
+  -- models/functions (dates.go is OW/Util/Dates.lean)
+  Kernels.InputNode.model, Kernels.Sum.model, Kernels.Gate.model, Kernels.ComputeProportion.model,
+  Kernels.BaseflowFilter.model, Kernels.PartitionDemand.model,
+  -- models/generation
+  Kernels.EmcDwc.model, Kernels.FixedConcentration.model, Kernels.PassLoadIfFlow.model,
+  Kernels.DissolvedNutrients.model, Kernels.ParticulateNutrients.model, Kernels.BankErosion.model,
+  Kernels.UsleFine.model, Kernels.SednetGully.model, Kernels.SednetGully.modelAlt ]
 
 end OW.Kernels.Groups.Conversion
